@@ -33,16 +33,16 @@ RULE += (
 )
 RULE += (
     " Paths and symlink targets also carry each character str.splitlines() breaks at but a line iteration does not "
-    "(U+2028, U+2029, U+0085, \\x0b, \\x0c, \\x1c-\\x1e), inside and at the end. Operation histories on one "
+    "(U+2028, U+2029, U+0085, \\x0b, \\x0c, \\x1c-\\x1e) and \\r, inside and at the end. Operation histories on one "
     "ContentsFile object: {open an existing CONTENTS, create one and flush it} followed by rounds of one change "
     "(add a new path, remove a path, replace the entry at a present path with other md5/mtime, other symlink "
     "target/mtime, or another entry type, through add() and update()) + flush(); after every flush a fresh reader "
     "must see exactly the in-memory set."
 )
 ASSUMPTIONS = [
-    "Excl: paths or targets containing \\n or \\r: the format is line based, and the file is read in universal-newline text mode, so a "
-    "\\r inside a path ends the line on read (observed on HEAD: [('dir', '/a\\rb')] -> ValueError unknown entry type 'b'; [('dir', '/a\\r')] -> '/a'); "
-    "the other characters str.splitlines() breaks at (U+2028, U+2029, U+0085, \\x0b, \\x0c, \\x1c-\\x1e) ARE in the alphabet",
+    "Excl: paths or targets containing \\n: the format is line based. \\r IS in the alphabet (before the fix 'vdb CONTENTS is read "
+    "with only \\n ending an entry' a \\r inside a path ended the line on read: [('dir', '/a\\rb')] -> ValueError unknown entry type 'b'), "
+    "as are the other characters str.splitlines() breaks at (U+2028, U+2029, U+0085, \\x0b, \\x0c, \\x1c-\\x1e)",
     "Excl: symlink *locations* containing '->' as a separate word: 'sym A -> B -> C t' is inherently ambiguous in the "
     "format (portage resolves it the same way, first '->' wins); '->' as a separate word is covered in symlink targets "
     "and in file/dir/fifo/device paths, and glued ('a->b') everywhere",
@@ -80,8 +80,8 @@ NAMES = [
 TARGETS = ["t", "t u", "../a  b", "t -> u", "->", "é", "t ", " t", "x 12"]
 MD5S = [0, 2**128 - 1, 0xD41D8CD98F00B204E9800998ECF8427E]
 MTIMES = [0, 1, 2**31, 1.9]
-# characters str.splitlines() breaks at but a text-file line iteration does not (\r excluded, see ASSUMPTIONS)
-LINEBREAKS = ["\u2028", "\u2029", "\x85", "\x0b", "\x0c", "\x1c", "\x1d", "\x1e"]
+# characters str.splitlines() or a universal-newline read breaks at but that do not end a CONTENTS entry
+LINEBREAKS = ["\u2028", "\u2029", "\x85", "\x0b", "\x0c", "\x1c", "\x1d", "\x1e", "\r"]
 DEVROOT = "/verif-c24-no-such-dir"  # device paths below it do not exist on the host
 DEV_MISSING = DEVROOT + "/a"
 DEV_LIVE = "/dev/null"
